@@ -37,7 +37,7 @@ import (
 	"github.com/dolthub/dolt/go/zzverif/vsql"
 )
 
-const c35FaultRule = "per case: a database with a generated history (table t with 3-5 rows, optionally 200 bulk rows; 3-6 further commits on main and b1, each pushed to a file remote so the remote holds several table files). Transfer 1 (push path, in process): a destination directory store that already holds an older commit of main (so it shares part of the chunks; drawn: the direct parent, a deeper ancestor, or — with a force push — a commit of b1 that is not an ancestor) receives actions.Push of the newest commit of main, with the destination's *nbs.GenerationalNBS wrapped so that call #k of WriteTableFile (failing before the write, and in a second variant after the file was written), AddTableFilesToManifest or Commit returns an error, for every k from 1 to the number of calls of that kind counted in the clean run. Transfer 2 (clone path): DoltDB.Clone from the remote directory into an empty wrapped directory store, same enumeration. Oracle: an injected failure makes the transfer return an error; the destination reopened without cache has exactly the datasets it had before, and the closure walk (types.WalkAddrsFromNomsValue) from every dataset head finds every address; the transfer retried without faults on the same directory succeeds and the destination's datasets equal those of the clean run (push: branch main at the pushed commit; clone: all of the source's datasets) and its closure walk passes. The enumeration over k is complete for each generated transfer (exhaustive within a case; cases are sampled). Non-trivial: a fault point strictly between the first table file write and the final root update, of a transfer whose destination already held part of the data or that moves at least two table files; distinct by history shape, transfer kind and fault point."
+const c35FaultRule = "per case: a database with a generated history (table t with 3-5 rows, optionally 200 bulk rows; 3-6 further commits on main and b1, each pushed to a file remote so the remote holds several table files). Transfer 1 (push path, in process): a destination directory store that already holds an older commit of main (so it shares part of the chunks; drawn: the direct parent, a deeper ancestor, or — with a force push — a commit of b1 that is not an ancestor) receives actions.Push of the newest commit of main, with the destination's *nbs.GenerationalNBS wrapped so that call #k of WriteTableFile (failing before the write, and in a second variant after the file was written), AddTableFilesToManifest or Commit returns an error — once, or (sticky variant) for that call and every later call of the same kind — for every k from 1 to the number of calls of that kind counted in the clean run. Transfer 2 (clone path): DoltDB.Clone from the remote directory into an empty wrapped directory store, same enumeration. Oracle: a sticky failure makes the transfer return an error; a transfer that returns an error leaves the destination (reopened without cache) with exactly the datasets it had before; a transfer that absorbs a one-time failure by retrying (the clone path retries table files) and reports success must end in the clean run's state; and the closure walk (types.WalkAddrsFromNomsValue) from every dataset head finds every address; the transfer retried without faults on the same directory succeeds and the destination's datasets equal those of the clean run (push: branch main at the pushed commit; clone: all of the source's datasets) and its closure walk passes. The enumeration over k is complete for each generated transfer (exhaustive within a case; cases are sampled). Non-trivial: a fault point strictly between the first table file write and the final root update, of a transfer whose destination already held part of the data or that moves at least two table files; distinct by history shape, transfer kind and fault point."
 
 var c35FaultAssumptions = []string{
 	"faults are errors returned by the destination's table-file store calls (connection-loss model); torn writes inside one call and crashes of the pushing process are not modelled here (C03/C05 cover the store's own crash atomicity)",
@@ -54,6 +54,7 @@ type c35FaultStore struct {
 	failOp string
 	failAt int
 	after  bool // perform the call, then report failure (WriteTableFile only)
+	sticky bool // every call of failOp from #failAt on fails (the destination stays unreachable)
 	fired  bool
 }
 
@@ -61,7 +62,7 @@ func (s *c35FaultStore) hit(op string) (fail bool) {
 	s.mu.Lock()
 	defer s.mu.Unlock()
 	s.counts[op]++
-	if op == s.failOp && s.counts[op] == s.failAt {
+	if op == s.failOp && (s.counts[op] == s.failAt || (s.sticky && s.counts[op] > s.failAt)) {
 		s.fired = true
 		return true
 	}
@@ -109,7 +110,7 @@ type c35Dest struct {
 func (d *c35Dest) close() { _ = d.raw.Close() }
 
 // c35OpenDest opens dir (no cache) and returns a DoltDB over the wrapped store.
-func c35OpenDest(dir, failOp string, failAt int, after bool) (*c35Dest, error) {
+func c35OpenDest(dir, failOp string, failAt int, after, sticky bool) (*c35Dest, error) {
 	raw, err := c35OpenDir(dir)
 	if err != nil {
 		return nil, err
@@ -120,7 +121,7 @@ func c35OpenDest(dir, failOp string, failAt int, after bool) (*c35Dest, error) {
 		_ = raw.Close()
 		return nil, fmt.Errorf("destination store is a %T, expected *nbs.GenerationalNBS", cs)
 	}
-	st := &c35FaultStore{GenerationalNBS: gen, counts: map[string]int{}, failOp: failOp, failAt: failAt, after: after}
+	st := &c35FaultStore{GenerationalNBS: gen, counts: map[string]int{}, failOp: failOp, failAt: failAt, after: after, sticky: sticky}
 	ddb, err := doltdb.DoltDBFromCS(st, "")
 	if err != nil {
 		_ = raw.Close()
@@ -207,7 +208,7 @@ func (c *c35FaultCase) enumerate(tr c35Transfer, dir0 string, sharesData bool, r
 	if err := c35CopyDir(dir0, cleanDir); err != nil {
 		c.fatalf("%v", err)
 	}
-	d, err := c35OpenDest(cleanDir, "", 0, false)
+	d, err := c35OpenDest(cleanDir, "", 0, false, false)
 	if err != nil {
 		c.fatalf("%s: open destination: %v", tr.name, err)
 	}
@@ -225,18 +226,20 @@ func (c *c35FaultCase) enumerate(tr c35Transfer, dir0 string, sharesData bool, r
 	}
 	points, interior := 0, 0
 	type variant struct {
-		op    string
-		after bool
+		op     string
+		after  bool
+		sticky bool
 	}
-	for _, v := range []variant{{"WriteTableFile", false}, {"WriteTableFile", true}, {"AddTableFilesToManifest", false}, {"Commit", false}} {
+	for _, v := range []variant{{"WriteTableFile", false, false}, {"WriteTableFile", true, false}, {"WriteTableFile", false, true},
+		{"AddTableFilesToManifest", false, false}, {"AddTableFilesToManifest", false, true}, {"Commit", false, false}, {"Commit", false, true}} {
 		for k := 1; k <= counts[v.op]; k++ {
 			points++
-			label := fmt.Sprintf("%s: fault at %s #%d (after=%v)", tr.name, v.op, k, v.after)
-			dir := filepath.Join(c.base, fmt.Sprintf("%s-%s-%d-%v", tr.name, v.op, k, v.after))
+			label := fmt.Sprintf("%s: fault at %s #%d (after=%v sticky=%v)", tr.name, v.op, k, v.after, v.sticky)
+			dir := filepath.Join(c.base, fmt.Sprintf("%s-%s-%d-%v-%v", tr.name, v.op, k, v.after, v.sticky))
 			if err := c35CopyDir(dir0, dir); err != nil {
 				c.fatalf("%v", err)
 			}
-			d, err := c35OpenDest(dir, v.op, k, v.after)
+			d, err := c35OpenDest(dir, v.op, k, v.after, v.sticky)
 			if err != nil {
 				c.fatalf("%s: open destination: %v", label, err)
 			}
@@ -246,16 +249,25 @@ func (c *c35FaultCase) enumerate(tr c35Transfer, dir0 string, sharesData bool, r
 			if !fired {
 				c.fatalf("%s: the transfer made fewer calls than the clean run (%d)", label, counts[v.op])
 			}
-			if terr == nil {
-				c.fatalf("%s: the transfer reported success although the destination refused the call", label)
-			}
-			c.log = append(c.log, fmt.Sprintf("%s -> %s", label, c08Short(terr)))
 			got := c.inspect(dir, label+", destination reopened")
-			if c35HeadsString(got) != c35HeadsString(before) {
-				c.fatalf("%s: destination refs changed although the transfer failed:\n  before {%s}\n  after  {%s}", label, c35HeadsString(before), c35HeadsString(got))
+			if terr == nil {
+				// the clone path retries a refused table file; a transfer that absorbed the fault must be complete
+				if v.sticky {
+					c.fatalf("%s: the transfer reported success although the destination kept refusing the call", label)
+				}
+				c.log = append(c.log, label+" -> absorbed (transfer succeeded)")
+				if c35HeadsString(got) != c35HeadsString(want) {
+					c.fatalf("%s: the transfer reported success but the destination differs from a clean transfer:\n  clean {%s}\n  got   {%s}", label, c35HeadsString(want), c35HeadsString(got))
+				}
+				rec.Class("fault_absorbed_by_retry", 1)
+			} else {
+				c.log = append(c.log, fmt.Sprintf("%s -> %s", label, c08Short(terr)))
+				if c35HeadsString(got) != c35HeadsString(before) {
+					c.fatalf("%s: destination refs changed although the transfer failed:\n  before {%s}\n  after  {%s}", label, c35HeadsString(before), c35HeadsString(got))
+				}
 			}
 			// retry without faults on the same directory
-			d, err = c35OpenDest(dir, "", 0, false)
+			d, err = c35OpenDest(dir, "", 0, false, false)
 			if err != nil {
 				c.fatalf("%s: reopen for the retry: %v", label, err)
 			}
@@ -272,7 +284,7 @@ func (c *c35FaultCase) enumerate(tr c35Transfer, dir0 string, sharesData bool, r
 			if isInterior {
 				interior++
 			}
-			rec.Case(fmt.Sprintf("%s | %s %s#%d after=%v", desc, tr.name, v.op, k, v.after), isInterior, "transfer="+tr.name, "op="+v.op, fmt.Sprintf("after=%v", v.after))
+			rec.Case(fmt.Sprintf("%s | %s %s#%d after=%v sticky=%v", desc, tr.name, v.op, k, v.after, v.sticky), isInterior, "transfer="+tr.name, "op="+v.op, fmt.Sprintf("after=%v", v.after), fmt.Sprintf("sticky=%v", v.sticky))
 			_ = os.RemoveAll(dir)
 		}
 	}
@@ -423,7 +435,7 @@ func c35FaultRun(rt *rapid.T, srv *vsql.Server, admin *vsql.Session, scratch str
 	if err := os.MkdirAll(dest0, 0o755); err != nil {
 		c.fatalf("mkdir: %v", err)
 	}
-	d, err := c35OpenDest(dest0, "", 0, false)
+	d, err := c35OpenDest(dest0, "", 0, false, false)
 	if err != nil {
 		c.fatalf("open destination: %v", err)
 	}
